@@ -652,7 +652,7 @@ def run(ctx):
     PENDING.clear()
     corpus(ctx, rng)
     judge(ctx)
-    for i in range(ctx.n(100, 6000)):
+    for i in range(ctx.n(70, 6000)):
         scenario(ctx, rng, f"{ctx.seed}:{i}")
         if len(PENDING) >= 3000:
             judge(ctx)
